@@ -399,6 +399,23 @@ StylesheetExecutionContextDefault::getCurrentTemplate() const
 void
 StylesheetExecutionContextDefault::pushCurrentTemplate(const ElemTemplate*  theTemplate)
 {       
+    // Templates that instantiate each other without end must end in an
+    // error, not in the exhaustion of memory.  No stylesheet that terminates
+    // in reasonable time nests templates this deeply.
+    if (theTemplate != 0 &&
+        m_currentTemplateStack.size() >= eMaximumTemplateDepth)
+    {
+        const GetCachedString   theGuard(*this);
+
+        throw XSLTProcessorException(
+                getMemoryManager(),
+                XalanMessageLoader::getMessage(
+                    theGuard.get(),
+                    XalanMessages::InfiniteRecursion_1Param,
+                    theTemplate->getElementName()),
+                theTemplate->getLocator());
+    }
+
     m_currentTemplateStack.push_back(theTemplate);
 }
 
